@@ -487,6 +487,8 @@ def stratified(
         nonzero_weights *= data.nnz / num_nonzeros
 
     zero_subs = zeros(data, nz_idx, num_zeros, over_sample_rate, with_replacement=True)
+    # Fewer zeros than requested may have been found: one value and weight per sample
+    num_zeros = zero_subs.shape[0]
     zero_vals = np.zeros((num_zeros,))
     data_nonzero_count = np.prod(data.shape) - data.nnz
     zero_weights = np.ones((num_zeros,))
